@@ -993,7 +993,10 @@ impl<'a> Gen<'a> {
                 s.wheres.push(self.bool_unqualified(&t));
             }
             let can_limit = !self.cfg.is(Dialect::Postgres) && self.cfg.dialect.is_some();
-            if can_limit && self.rng.chance(1, 3) {
+            if can_limit && self.rng.chance(1, 10) {
+                // LIMIT without ORDER BY: deterministic because the limit exceeds every table
+                s.limit = Some(100 + self.rng.below(5) as u64);
+            } else if can_limit && self.rng.chance(1, 3) {
                 if self.rng.coin() {
                     let c = t.cols[1].0.clone();
                     s.orders.push(Ord_ { expr: X::Col(crate::util::intern(&c)), dir: if self.rng.coin() { Dir::Asc } else { Dir::Desc }, nulls_first: if self.rng.chance(1, 3) { Some(self.rng.coin()) } else { None } });
@@ -1039,7 +1042,9 @@ impl<'a> Gen<'a> {
             s.wheres.push(self.bool_unqualified(&t));
         }
         let can_limit = !self.cfg.is(Dialect::Postgres) && self.cfg.dialect.is_some();
-        if can_limit && self.rng.chance(1, 3) {
+        if can_limit && self.rng.chance(1, 10) {
+            s.limit = Some(100 + self.rng.below(5) as u64);
+        } else if can_limit && self.rng.chance(1, 3) {
             if self.rng.coin() {
                 let c = t.cols[1].0.clone();
                 s.orders.push(Ord_ { expr: X::Col(crate::util::intern(&c)), dir: if self.rng.coin() { Dir::Asc } else { Dir::Desc }, nulls_first: if self.rng.chance(1, 3) { Some(self.rng.coin()) } else { None } });
